@@ -16,6 +16,12 @@ def stopHead : Str → Bool
   | [] => true
   | c :: _ => unqStop c
 
+/-- `rest` starts with a line ending (LF or CRLF) -/
+def startsWithEol : Str → Bool
+  | '\n' :: _ => true
+  | '\r' :: '\n' :: _ => true
+  | _ => false
+
 theorem spaceLen_eq (s : Str) : spaceLen s = (let n := spanLen isBlank s; if n = 0 then none else some n) := rfl
 theorem newlineLen_eq (s : Str) : newlineLen s = (let n := spanLen isEolCh s; if n = 0 then none else some n) := rfl
 
@@ -412,7 +418,7 @@ theorem word_rules {t rest : Str} (ht : t ≠ []) (hu : unqLen t = t.length) (ho
     cases t with
     | nil => exact absurd rfl ht
     | cons c t =>
-      obtain ⟨n1, n2, n3, n4, n5, n6, n7, n8⟩ := word_head_ne (unqLen_head (by rw [hu]; simpa using hlen))
+      obtain ⟨n1, n2, n3, n4, n5, n6, n7, n8⟩ := word_head_ne (unqLen_head (by rw [hu]; simp))
       simp only [List.cons_append] at hob'
       have hb1 : isBlank c = false := by simp [isBlank, n5, n6]
       have hb2 : isEolCh c = false := by simp [isEolCh, n7, n8]
